@@ -304,6 +304,21 @@ def rule_shared_class_state(repo, res, families=("PVLParser", "PVLDecoder", "PVL
                             and isinstance(a.func.value, ast.Attribute) and isinstance(a.func.value.value, ast.Name) \
                             and a.func.value.value.id in ("self", "cls", c):
                         tgt = a.func.value.attr
+                    # self.NAME += [...] / |= {...}: for a list, dict or set the class-level object itself is extended in place
+                    # (and then bound to the instance as well) -- unless the instance got its own object first
+                    if isinstance(a, ast.AugAssign) and isinstance(a.target, ast.Attribute) and isinstance(a.target.value, ast.Name) \
+                            and a.target.value.id in ("self", "cls", c) and a.target.attr in shared:
+                        rebound_before = any(isinstance(b, ast.Assign) and b.lineno < a.lineno and any(
+                            isinstance(t, ast.Attribute) and isinstance(t.value, ast.Name) and t.value.id == "self" and t.attr == a.target.attr
+                            for t in b.targets) for b in ast.walk(fn))
+                        if not rebound_before:
+                            n += 1
+                            res.oblige("E-SHARED", f"{c}.{m}: `{norm(a, 60)}` does not extend the class-level object `{a.target.attr}` in place", ok=False)
+                            res.add(Finding("E-SHARED", f"{c}.{m}", f"extends class attribute {a.target.attr} in place",
+                                            f"{c}.{m} executes `{norm(a, 70)}`; `{a.target.attr}` is a mutable object created once in the body of "
+                                            f"class {shared[a.target.attr]}: the augmented assignment changes that one object for every grammar / "
+                                            "parser / encoder class that inherits it, so what a dialect accepts or writes depends on which "
+                                            "objects were built before", where=f"pvl/{repo.classes[c].module.name}.py:{a.lineno}"))
                     if tgt in shared and tgt not in own:
                         n += 1
                         res.oblige("E-SHARED", f"{c}.{m}: `{norm(a, 60)}` does not write through the class-level object `{tgt}`", ok=False)
@@ -853,3 +868,61 @@ def rule_e8(repo, res):
                                     "stands directly against the '=' the search misses it and the placeholder (and module.errors) reports "
                                     "the line of an earlier '='", where=f"pvl/parser.py:{call.lineno}"))
     res.floor("E8 position arguments of _empty_value", n, 4)
+
+
+def rule_iter_mut(repo, res, modules=("encoder", "parser", "__init__", "new", "pvl_translate", "pvl_validate")):
+    """ITER-MUT: a container is not changed while a live view of it is being iterated: inside `for .. in X.items()` (or
+    .keys() / .values() / X itself) an assignment `X[k] = ..`, a `del X[k]` or a mutating call on X is followed -- in the
+    same block -- by leaving the loop (break / return / raise) before the next step of the iteration.  The default
+    container family tolerates going on (its views are backed by a list that is rewritten in place), the multidict family
+    raises RuntimeError("Dictionary changed during iteration"): the same label then dumps with one loader's result and
+    not with the other's."""
+    n = 0
+    for mname in modules:
+        if mname not in repo.modules:
+            continue
+        mod = repo.module(mname)
+        fns = [(f"{mname}.{k}", v) for k, v in mod.functions.items()]
+        for cname in mod.classes:
+            if cname in repo.classes:
+                fns += [(f"{cname}.{k}", v) for k, v in repo.classes[cname].methods.items()]
+        for label, fn in fns:
+            for loop in [x for x in ast.walk(fn) if isinstance(x, ast.For)]:
+                it = loop.iter
+                if isinstance(it, ast.Call) and isinstance(it.func, ast.Attribute) and it.func.attr in ("items", "keys", "values") and not it.args:
+                    base = norm(it.func.value)
+                elif isinstance(it, ast.Name):
+                    base = it.id
+                else:
+                    continue
+                for st in [x for b in loop.body for x in ast.walk(b) if isinstance(x, ast.stmt)]:
+                    mut = None
+                    if isinstance(st, (ast.Assign, ast.AugAssign)):
+                        for t in (st.targets if isinstance(st, ast.Assign) else [st.target]):
+                            if isinstance(t, ast.Subscript) and norm(t.value) == base:
+                                mut = st
+                    if isinstance(st, ast.Delete) and any(isinstance(t, ast.Subscript) and norm(t.value) == base for t in st.targets):
+                        mut = st
+                    if isinstance(st, ast.Expr) and isinstance(st.value, ast.Call) and isinstance(st.value.func, ast.Attribute) \
+                            and norm(st.value.func.value) == base and st.value.func.attr in MUTATORS:
+                        mut = st
+                    if mut is None:
+                        continue
+                    n += 1
+                    # the rest of the block that holds the mutation ends the loop?
+                    par = getattr(mut, "_parent", None)
+                    leaves = False
+                    for field in ("body", "orelse", "finalbody"):
+                        blk = getattr(par, field, None)
+                        if isinstance(blk, list) and mut in blk:
+                            rest = blk[blk.index(mut) + 1:]
+                            leaves = bool(rest) and isinstance(rest[-1], (ast.Break, ast.Return, ast.Raise)) and not any(
+                                isinstance(y, (ast.For, ast.While)) for r_ in rest for y in ast.walk(r_))
+                    res.oblige("ITER-MUT", f"{label}: `{norm(mut, 50)}` inside `for .. in {norm(it, 30)}` is followed by leaving the loop", ok=leaves)
+                    if not leaves:
+                        res.add(Finding("ITER-MUT", label, f"`{norm(mut, 50)}` while iterating {norm(it, 30)}",
+                                        f"{label} executes `{norm(mut, 60)}` inside `for .. in {norm(it, 40)}` and goes on iterating: a container "
+                                        "of the multidict family raises RuntimeError (changed during iteration) on the next step, one of the "
+                                        "default family carries on -- the same label dumps after pvl.load and fails after pvl.new.load",
+                                        where=f"pvl/{mname}.py:{mut.lineno}"))
+    res.oblige("ITER-MUT", f"{n} mutation(s) of a container inside a loop over its own view examined", ok=True, nontrivial=False)
